@@ -17,6 +17,8 @@ import traceback
 import importlib
 
 HERE = os.path.dirname(os.path.dirname(os.path.abspath(__file__)))
+# where evidence/ and replays/ are written: /verif itself, except for development runs against a scratch tree (DVC_REPO)
+OUT = os.environ.get('DVC_OUT', HERE)
 sys.path.insert(0, HERE)
 
 from dvc.program import Program, REPO      # noqa: E402
@@ -115,8 +117,8 @@ class Run:
             ev['coverage']['distinct_nontrivial'] = tot_d
             ev['coverage']['rule'] = ' | '.join(rules)
             ev['coverage']['samples'] = samples2 or ev['coverage'].get('samples', [])
-        os.makedirs(os.path.join(HERE, 'evidence'), exist_ok=True)
-        with open(os.path.join(HERE, 'evidence', '%s.json' % self.prop), 'w') as f:
+        os.makedirs(os.path.join(OUT, 'evidence'), exist_ok=True)
+        with open(os.path.join(OUT, 'evidence', '%s.json' % self.prop), 'w') as f:
             json.dump(ev, f, indent=1, default=str)
 
     def by_kind(self, obligations, results):
@@ -129,7 +131,7 @@ class Run:
 
     # ------------------------------------------------------------------ replay files
     def write_replay(self, obname, payload):
-        d = os.path.join(HERE, 'replays', self.prop)
+        d = os.path.join(OUT, 'replays', self.prop)
         os.makedirs(d, exist_ok=True)
         payload = dict(payload)
         payload.setdefault('seed', self.seed)
@@ -276,7 +278,7 @@ def check(run, cfg):
     prop = run.prop
     quick = run.tier == 'quick'
     import shutil
-    shutil.rmtree(os.path.join(HERE, 'replays', prop), ignore_errors=True)
+    shutil.rmtree(os.path.join(OUT, 'replays', prop), ignore_errors=True)
     known = [k for k in load_known() if k.get('property') == prop and not k.get('fixed')]
     # ---- known-finding regions are excluded from the precondition (DESIGN 3.8) and replayed below
     for k in known:
